@@ -35,6 +35,7 @@ struct World::TState
     int range = 0;  // 0: 2.18.0, 1: 2.20.1-2.20.2, 2: >= 2.20.3
     std::string uuid;
     uint64_t rowuniq = 0;
+    std::optional<v2::information_row> info;  // the Information row as last written (model)
 };
 
 }  // namespace djsim
